@@ -21,22 +21,101 @@ REF_BN = "py_ecc.bn128.bn128_pairing"
 
 
 class ExpSym(AbstractValue):
-    """x^e for one symbolic x: arithmetic on exponents"""
+    """λ·x^e for one symbolic x: arithmetic on exponents, λ a constant of the degree-12 field (None: 1)"""
     sort = "field"
+    F = None          # the ExtField in which coefficients live (set by the rule before use)
 
-    def __init__(self, e):
+    def __init__(self, e, coef=None):
         self.e = e
+        self.coef = coef
+
+    def _c(self):
+        return self.coef if self.coef is not None else self.F.one()
+
+    def _mk(self, e, coef):
+        if coef is not None and tuple(coef) == tuple(self.F.one()):
+            coef = None
+        r = ExpSym(e, coef)
+        r.F = self.F
+        return r
 
     def v_binop(self, op, other, reflected, it):
         if op == "pow" and not reflected and isinstance(other, int):
-            return ExpSym(self.e * other)
+            return self._mk(self.e * other, None if self.coef is None else self.F.pow(self.coef, other))
         if isinstance(other, ExpSym):
             a, b = (other, self) if reflected else (self, other)
+            plain = a.coef is None and b.coef is None
             if op == "mul":
-                return ExpSym(a.e + b.e)
+                return self._mk(a.e + b.e, None if plain else self.F.mul(a._c(), b._c()))
             if op == "truediv":
-                return ExpSym(a.e - b.e)
+                return self._mk(a.e - b.e, None if plain else self.F.mul(a._c(), self.F.inv(b._c())))
         raise AnalysisError(f"operator {op} on a formal power")
+
+
+def frobenius_matrices(p, mc):
+    """images of the basis 1, w, …, w^11 under x ↦ x^(p^k), k = 0..11, as coefficient vectors (Frobenius is F_p-linear)"""
+    F12 = ExtField(p, tuple(mc))
+    d = len(mc)
+    basis = [tuple(1 if j == i else 0 for j in range(d)) for i in range(d)]
+    frob1 = [F12.pow(b, p) for b in basis]
+    mats = [basis]
+    for _k in range(1, d):
+        prev = mats[-1]
+        nxt = []
+        for v in prev:                      # v = Σ a_j w^j, a_j in F_p  ⇒  v^p = Σ a_j (w^j)^p
+            acc = [0] * d
+            for j, a in enumerate(v):
+                if a:
+                    for t in range(d):
+                        acc[t] = (acc[t] + a * frob1[j][t]) % p
+            nxt.append(tuple(acc))
+        mats.append(nxt)
+    return mats
+
+
+def frobenius_power_of(w, fn, FQ12, mc, p, mats):
+    """(k, λ) if the one-argument function fn is x ↦ λ·x^(p^k) on every element of the degree-12 field (decided on symbolic
+    coefficients: the result is compared, path by path, with Σ c_i·(w^i)^(p^k)); None when it is something else or
+    outside the fragment"""
+    import ast
+    from ..ecalg import alg_paths, AlgState
+    from ..poly import Rat
+    node = fn.node
+    if len(node.args.args) != 1 or any(isinstance(n, (ast.Pow, ast.While)) for n in ast.walk(node)):
+        return None
+    x = TowerSym([Poly.var(f"c{i}", p) for i in range(len(mc))], mc, p, FQ12)
+    it = Interp(w, class_hooks=[tower_ctor_hook])
+    try:
+        eps = alg_paths(w, lambda it2: it2.call_func(fn, [x], {}), AlgState(), class_hooks=[tower_ctor_hook])
+    except AnalysisError:
+        return None
+    if not eps or any(pth.outcome != "return" or not isinstance(pth.value, TowerSym) for pth in eps):
+        return None
+    # the constant factor λ = f(1): the coefficient of c0 in the result (the same on every path, or it is no such map)
+    lams = set()
+    for pth in eps:
+        lam = []
+        for c in pth.value.c:
+            cs = Poly(c.t, p).coeffs_in("c0")
+            k1 = cs.get(1, Poly.const(0, p))
+            if not k1.is_const():
+                return None
+            lam.append(k1.const_value() % p if hasattr(k1, "const_value") else (list(k1.t.values()) or [0])[0] % p)
+        lams.add(tuple(lam))
+    if len(lams) != 1:
+        return None
+    lam = lams.pop()
+    if not any(lam):
+        return None
+    lamT = TowerSym(list(lam), mc, p, FQ12)
+    for k, M in enumerate(mats):
+        wantx = TowerSym([0] * len(mc), mc, p, FQ12)
+        for i in range(len(mc)):
+            wantx = wantx.v_binop("add", TowerSym(M[i], mc, p, FQ12).v_binop("mul", FieldSym(Poly.var(f"c{i}")), False, it), False, it)
+        wantx = lamT.v_binop("mul", wantx, False, it)
+        if all(all(pth.alg.is_zero(Rat(c)) is True for c in pth.value.v_binop("sub", wantx, False, it).c) for pth in eps):
+            return k, lam
+    return None
 
 
 def run(chk, repo, tier):
@@ -78,13 +157,48 @@ def run(chk, repo, tier):
         p, r = O["p"], O["r"]
         summ = {}
         if f"{mod}.exp_by_p" in {fn.qualname for fn in repo.all_functions()}:
-            summ[f"{mod}.exp_by_p"] = lambda it, fr, args, kw, node, p=p: ExpSym(args[0].e * p)
+            summ[f"{mod}.exp_by_p"] = lambda it, fr, args, kw, node, p=p: args[0]._mk(args[0].e * p, None if args[0].coef is None else args[0].F.pow(args[0].coef, p))
+        # other one-argument helpers of the module that are a Frobenius power on every element (conjugation, …)
+        mm = repo.module(mod)
+        helpers = [h for h in mm.functions.values() if h is not f and h.qualname not in summ and len(h.node.args.args) == 1
+                   and h.node.name not in ("final_exponentiate", "pairing", "miller_loop", "twist", "cast_point_to_fq12", "normalize1")]
+        recognised = []
+        if helpers:
+            import ast as _ast
+            called = {n.func.id for fn_ in mm.functions.values() for n in _ast.walk(fn_.node)
+                      if isinstance(n, _ast.Call) and isinstance(n.func, _ast.Name)}
+            FQ12c = it0.eval_global(mm, "FQ12")
+            mcs = it0.class_attr(FQ12c, "FQ12_MODULUS_COEFFS")
+            mats = None
+            for h in helpers:
+                if h.node.name not in called:
+                    continue
+                if mats is None:
+                    mats = frobenius_matrices(p, mcs)
+                kl = frobenius_power_of(w, h, FQ12c, mcs, p, mats)
+                if kl is not None:
+                    k, lam = kl
+                    one = tuple(1 if j == 0 else 0 for j in range(len(mcs)))
+
+                    def frob_summary(it, fr, args, kw, node, p=p, k=k, lam=lam, one=one):
+                        a = args[0]
+                        if not isinstance(a, ExpSym):
+                            return NotImplemented
+                        c = None if (a.coef is None and tuple(lam) == one) else a.F.mul(tuple(lam), a.F.pow(a._c(), p ** k))
+                        return a._mk(a.e * p ** k, c)
+                    summ[h.qualname] = frob_summary
+                    recognised.append(f"{h.node.name} = " + ("" if tuple(lam) == one else "λ·") + f"x^(p^{k})")
         it = Interp(w, summaries=summ)
-        res = it.call_func(f, [ExpSym(1)], {})
+        x0 = ExpSym(1)
+        x0.F = ExtField(p, tuple(it0.class_attr(it0.eval_global(mm, "FQ12"), "FQ12_MODULUS_COEFFS")))
+        res = it.call_func(f, [x0], {})
         E = (p ** 12 - 1) // r
-        ok = isinstance(res, ExpSym) and res.e == E and (p ** 12 - 1) % r == 0 and (p ** 4 - p ** 2 + 1) % r == 0
+        # exponents act modulo the order p^12 − 1 of the multiplicative group; a non-positive exponent would differ on 0
+        same = isinstance(res, ExpSym) and (res.e - E) % (p ** 12 - 1) == 0 and res.e > 0 and res.coef is None
+        ok = same and (p ** 12 - 1) % r == 0 and (p ** 4 - p ** 2 + 1) % r == 0
         chk.ob("C12.R1", f.qualname, "exponent == (p^12 − 1)/r", ok,
-               f"computed exponent has {res.e.bit_length() if isinstance(res, ExpSym) else '?'} bits; equal: {isinstance(res, ExpSym) and res.e == E}", f.where)
+               f"computed exponent has {res.e.bit_length() if isinstance(res, ExpSym) else '?'} bits; congruent to (p^12−1)/r "
+               f"modulo p^12−1: {same}" + (f"; helpers recognised as Frobenius powers: {', '.join(recognised)}" if recognised else ""), f.where)
     # ---------------------------------------------------------------- R2
     m = repo.module(OPT_BLS)
     table = it0.eval_global(m, "exptable")
